@@ -204,6 +204,7 @@ type c03Login struct {
 	CookieName  string
 	CookieValue string
 	LoginURL    string
+	OIDCNonce   string // the nonce parameter of the authorization request ("" when not sent)
 	Ident       vfIdentity
 }
 
@@ -259,7 +260,10 @@ func c03Start(inst *c03Inst, b *vfBrowser, bi int, kind, id string) (*c03Login, 
 	if err != nil {
 		return nil, err
 	}
-	out := &c03Login{ID: id, Inst: inst, Browser: bi, Kind: kind, Target: target, State: l.State, LoginURL: l.LoginURL, Ident: ident}
+	out := &c03Login{ID: id, Inst: inst, Browser: bi, Kind: kind, Target: target, State: l.State, LoginURL: l.LoginURL, Ident: ident, OIDCNonce: l.AuthReq.Params.Get("nonce")}
+	if out.OIDCNonce == "" {
+		out.OIDCNonce = "no-oidc-nonce-sent"
+	}
 	for _, sc := range l.StartResp.SetCookies() {
 		c, err := http.ParseSetCookie(sc)
 		if err != nil || !strings.HasSuffix(c.Name, "_csrf") || c.MaxAge < 0 || c.Value == "" {
@@ -283,6 +287,14 @@ func c03Start(inst *c03Inst, b *vfBrowser, bi int, kind, id string) (*c03Login, 
 
 // ---------------------------------------------------------------------------------------------------------
 // judging one callback
+
+// c03Rig records a failure of the rig itself (never a verdict on the property); the run ends INCONCLUSIVE.
+func c03Rig(run *vfRun, format string, a ...interface{}) {
+	run.Count("rig_failures", 1)
+	if run.Counter("rig_failures") <= 5 {
+		fmt.Printf("NOTE rig failure: "+format+"\n", a...)
+	}
+}
 
 type c03Case struct {
 	Run    *vfRun
@@ -535,6 +547,10 @@ func c03StateVariants(X, Y, Z, F *c03Login) []c03Named {
 		{Name: "nonce-last-char-changed", Class: "nonce-char-changed", State: mk(last, X.Redirect)},
 		{Name: "nonce-middle-char-changed", Class: "nonce-char-changed", State: mk(mid, X.Redirect)},
 		{Name: "nonce-case-swapped", Class: "nonce-char-changed", State: mk(c03SwapCase(n), X.Redirect)},
+		{Name: "nonce-trailing-space", Class: "nonce-extended", State: mk(n+" ", X.Redirect)},
+		{Name: "nonce-leading-space", Class: "nonce-extended", State: mk(" "+n, X.Redirect)},
+		{Name: "nonce-percent-encoded-char", Class: "nonce-char-changed", State: mk(n[:10]+fmt.Sprintf("%%%02X", n[10])+n[11:], X.Redirect)},
+		{Name: "oidc-nonce-as-state-nonce", Class: "other-login-nonce", State: mk(X.OIDCNonce, X.Redirect)},
 		{Name: "nonce-empty", Class: "nonce-empty", State: mk("", X.Redirect)},
 		{Name: "nonce-only-no-colon", Class: "no-colon", State: c03Str(func() string {
 			if enc {
@@ -573,6 +589,30 @@ func c03Tamper(value string, field int, rng *mrand.Rand) string {
 	return strings.Join(parts, "|")
 }
 
+// c03TamperSig replaces the signature characters [from,to) (all carry decoded bits: the signature has 43 significant characters).
+func c03TamperSig(value string, from, to int) string {
+	k := strings.LastIndexByte(value, '|')
+	if k < 0 || len(value)-k-1 < to {
+		return value + "x"
+	}
+	b := []byte(value)
+	for i := k + 1 + from; i < k+1+to; i++ {
+		b[i] = c03OtherChar(b[i])
+	}
+	return string(b)
+}
+
+// c03TamperTail changes a character near the end of the encrypted field (the last bytes of the plaintext).
+func c03TamperTail(value string) string {
+	k := strings.IndexByte(value, '|')
+	if k < 8 {
+		return value + "x"
+	}
+	b := []byte(value)
+	b[k-6] = c03OtherChar(b[k-6])
+	return string(b)
+}
+
 // cookie-set variants for login X. Y/Y2 = other logins of the same browser, Zs = logins of the other browser,
 // S = a login started on the sibling instance with another cookie secret.
 func (cs *c03Case) cookieVariants(X, Y, Y2 *c03Login, Zs []*c03Login, S *c03Login, rng *mrand.Rand) []c03Named {
@@ -594,6 +634,9 @@ func (cs *c03Case) cookieVariants(X, Y, Y2 *c03Login, Zs []*c03Login, S *c03Logi
 		c03Named{Name: "own-value-char-changed", Class: "tampered-value", Cks: [][2]string{{X.CookieName, c03Tamper(X.CookieValue, 0, rng)}}},
 		c03Named{Name: "own-timestamp-changed", Class: "tampered-timestamp", Cks: [][2]string{{X.CookieName, c03Tamper(X.CookieValue, 1, rng)}}},
 		c03Named{Name: "own-signature-char-changed", Class: "tampered-signature", Cks: [][2]string{{X.CookieName, c03Tamper(X.CookieValue, 2, rng)}}},
+		c03Named{Name: "own-signature-head-changed", Class: "tampered-signature", Cks: [][2]string{{X.CookieName, c03TamperSig(X.CookieValue, 0, 10)}}},
+		c03Named{Name: "own-signature-tail-changed", Class: "tampered-signature", Cks: [][2]string{{X.CookieName, c03TamperSig(X.CookieValue, 30, 42)}}},
+		c03Named{Name: "own-value-last-block-changed", Class: "tampered-value", Cks: [][2]string{{X.CookieName, c03TamperTail(X.CookieValue)}}},
 		c03Named{Name: "own-signature-dropped", Class: "tampered-signature", Cks: [][2]string{{X.CookieName, X.CookieValue[:strings.LastIndexByte(X.CookieValue, '|')+1]}}},
 		c03Named{Name: "own-first-field-only", Class: "tampered-signature", Cks: [][2]string{{X.CookieName, strings.SplitN(X.CookieValue, "|", 2)[0]}}},
 		c03Named{Name: "own+other-same-browser", Class: "own+other", Cks: [][2]string{own, ck(Y)}},
@@ -660,7 +703,8 @@ func (cs *c03Case) attempt(R *c03Inst, X *c03Login, sv, cv c03Named, part string
 	}
 	code, _, err := cs.W.IdP.Authorize(K.LoginURL, K.Ident)
 	if err != nil {
-		run.T.Fatalf("authorize: %v", err)
+		c03Rig(run, "authorize: %v", err)
+		return
 	}
 	target := R.P.Opts.ProxyPrefix + "/callback?code=" + vfQueryEscape(code)
 	if sv.State != nil {
@@ -738,7 +782,7 @@ func c03Configs(thorough bool) []c03Cfg {
 func TestVerif_C03(t *testing.T) {
 	run := vfNewRun(t, "C03", "exploration")
 	run.SetRule("Part A: per configuration 2 browsers x 3 interleaved logins (start?rd= / protected URL) on the main instance plus logins on a sibling with another cookie secret and on a sibling with the opposite --encode-state; " +
-		"every login X x ~35 presented-cookie sets (own, other login, other browser, tampered value/timestamp/signature, re-signed/re-encrypted with the sibling secret, absent, own+other in both orders, values under foreign names, duplicate names) x 22 state variants " +
+		"every login X x ~38 presented-cookie sets (own, other login, other browser, tampered value/timestamp/signature, re-signed/re-encrypted with the sibling secret, absent, own+other in both orders, values under foreign names, duplicate names) x 26 state variants " +
 		"(verbatim, redirect changed, nonce of another login, truncated, empty, nonce prefix/extension/changed char, encoding mismatch), received by the main and both sibling instances. " +
 		"Part B: real cookie jars, 1-3 logins per browser, all completion permutations and seeded random start/complete/replay walks. " +
 		"cell = (csrf-per-request, encode-state, PKCE, skip-nonce, receiver, cookie class, state class, expected) ; non-trivial = every callback (each needs a started login)")
@@ -750,7 +794,11 @@ func TestVerif_C03(t *testing.T) {
 	for ci, cfg := range c03Configs(run.Env.Thorough()) {
 		c03RunConfig(run, w, cfg, ci)
 	}
-	run.Finish(int64(run.Env.Pick(12000, 30000)), run.Env.Pick(800, 1500))
+	if n := run.Counter("rig_failures"); n > 0 {
+		fmt.Printf("INCONCLUSIVE property=C03 reason=%d rig failures (see NOTE lines)\n", n)
+		t.Fail()
+	}
+	run.Finish(int64(run.Env.Pick(12000, 100000)), run.Env.Pick(1300, 2500))
 }
 
 func c03RunConfig(run *vfRun, w *vfWorld, cfg c03Cfg, ci int) {
@@ -1045,7 +1093,8 @@ func c03Histories(cs *c03Case, A *c03Inst, rng *mrand.Rand) {
 			if op.Op == "start" {
 				l, err := c03Start(A, b, op.B, op.Kind, fmt.Sprintf("h%d-b%d-%d", hn, op.B, len(started[op.B])))
 				if err != nil {
-					run.T.Fatalf("history %v: %v", trail, err)
+					c03Rig(run, "[%s] history %v: %v", cs.Cfg.Label(), trail, err)
+					return
 				}
 				started[op.B] = append(started[op.B], l)
 				startSeq[l] = oi
@@ -1056,7 +1105,8 @@ func c03Histories(cs *c03Case, A *c03Inst, rng *mrand.Rand) {
 			X := started[op.B][op.Idx]
 			code, _, err := cs.W.IdP.Authorize(X.LoginURL, X.Ident)
 			if err != nil {
-				run.T.Fatalf("authorize: %v", err)
+				c03Rig(run, "authorize: %v", err)
+				return
 			}
 			target := A.P.Opts.ProxyPrefix + "/callback?code=" + vfQueryEscape(code) + "&state=" + vfQueryEscape(X.State)
 			var cks [][2]string
